@@ -182,3 +182,38 @@ def solve_all(queries, nproc=NPROC):
         for n, r, s, t, m in pool.imap_unordered(solve_text, queries, chunksize=1):
             out[n] = (r, s, t, m)
     return out
+
+
+_OBS = []
+
+
+def _build_and_solve(i):
+    ob = _OBS[i]
+    t0 = time.time()
+    try:
+        text, _ = build_query(ob)
+    except Exception as e:
+        return i, "unknown", "build", 0.0, "build-error: %r" % (e,), ""
+    name, res, solver, secs, model = solve_text((ob.name, text))
+    return i, res, solver, time.time() - t0, model, text
+
+
+def solve_obligations(obs, nproc=NPROC):
+    """Build and solve every obligation in forked workers (z3 terms are inherited through fork, never pickled).
+    -> list of (res, solver, secs, model, text) aligned with obs."""
+    global _OBS
+    out = [None] * len(obs)
+    if not obs:
+        return out
+    _OBS = obs
+    ctx = multiprocessing.get_context("fork")
+    if nproc <= 1:
+        for i in range(len(obs)):
+            r = _build_and_solve(i)
+            out[r[0]] = r[1:]
+        return out
+    with ctx.Pool(min(nproc, len(obs))) as pool:
+        for r in pool.imap_unordered(_build_and_solve, range(len(obs)), chunksize=1):
+            out[r[0]] = r[1:]
+    _OBS = []
+    return out
